@@ -219,7 +219,16 @@ def run_case(case, ctx):
     two = bool(size >= 3 and kernel in ('sinc', 'expm1', 'sinc_half_sq') and case['seed'] % 3 != 0)
     z1 = z0 + 0.53717 * ((1 + 0.5j) if isinstance(z0, complex) else 1)
 
+    # history for a complex point: the same object has first taken the limit at a *real* singular point of the same function,
+    # where the function is real-valued: f(z) = g(z) s((z - x_r)(z - z0)(z - conj z0)), real g, entire kernel
+    x_r = 0.4375
+    real_first = bool(size == 0 and isinstance(z0, complex) and kernel in ('sinc', 'expm1', 'sinc_half_sq')
+                      and case['g'] in ('exp', 'poly', 'cos2', 'inv4') and form == 'native')
+
     def f(z):
+        if real_first:
+            # ((z - z0)(z - conj z0) written with real coefficients: real arithmetic, and a real dtype, at real points)
+            return g(z) * s((z - x_r) * (z * z - 2.0 * z0.real * z + (z0.real ** 2 + z0.imag ** 2)))
         if two:
             return g(z) * s((z - z0) * (z - z1))
         return g(z) * s(z - z0)
@@ -252,6 +261,14 @@ def run_case(case, ctx):
     else:
         zin, regular, zs = z0_given, np.array([False]), np.array([z0])
     L = Limit(rec, **kw)
+    if real_first:
+        ctx.count('object_used_at_a_real_singular_point_before')
+        try:
+            with np.errstate(all='ignore'):
+                L.limit(x_r) if case['use_limit_method'] else L(x_r)
+        except Exception:
+            pass
+        del rec.calls[:]
     z_then = np.array(zin, copy=True) if isinstance(zin, np.ndarray) else None
     try:
         with np.errstate(all='ignore'):
